@@ -79,9 +79,7 @@ def hess(fcn: Callable[..., torch.Tensor], params: Sequence[Any],
         def pfcn2(*params):
             with torch.enable_grad():
                 z = pfcn(*params)
-            grady, = torch.autograd.grad(z, (params[idx],), retain_graph=True,
-                                         create_graph=torch.is_grad_enabled())
-            return grady
+            return _grad_or_zeros(z, params[idx], create_graph=torch.is_grad_enabled())
         return pfcn2
 
     for idx in idxs_list:
@@ -106,7 +104,7 @@ class _Jac(LinearOperator):
         with torch.enable_grad():
             yout = fcn(*params)  # (*nout)
             v = torch.ones_like(yout).to(yout.device).requires_grad_()  # (*nout)
-            dfdy, = torch.autograd.grad(yout, (yparam,), grad_outputs=v, create_graph=True)  # (*nin)
+            dfdy = _grad_or_zeros(yout, yparam, grad_outputs=v, create_graph=True)  # (*nin)
 
         inshape = yparam.shape
         outshape = yout.shape
@@ -158,14 +156,14 @@ class _Jac(LinearOperator):
                 yparam = self.params[self.idx]
                 yout = self.fcn(*self.params)  # (*nout)
                 v = torch.ones_like(yout).to(yout.device).requires_grad_()  # (*nout)
-                dfdy, = torch.autograd.grad(yout, (yparam,), grad_outputs=v, create_graph=True)  # (*nin)
+                dfdy = _grad_or_zeros(yout, yparam, grad_outputs=v, create_graph=True)  # (*nin)
 
         gy1 = gy.reshape(-1, self.nin)  # (nbatch, nin)
         nbatch = gy1.shape[0]
         dfdyfs_list = []
         for i in range(nbatch):
-            dfdyf, = torch.autograd.grad(dfdy, (v,), grad_outputs=gy1[i].reshape(self.inshape),
-                                         retain_graph=True, create_graph=torch.is_grad_enabled())  # (*nout)
+            dfdyf = _grad_or_zeros(dfdy, v, grad_outputs=gy1[i].reshape(self.inshape),
+                                   create_graph=torch.is_grad_enabled())  # (*nout)
             dfdyfs_list.append(dfdyf.unsqueeze(0))
         dfdyfs = torch.cat(dfdyfs_list, dim=0)  # (nbatch, *nout)
 
@@ -190,8 +188,8 @@ class _Jac(LinearOperator):
         nbatch = gout1.shape[0]
         dfdy_list = []
         for i in range(nbatch):
-            one_dfdy, = torch.autograd.grad(yout, (yparam,), grad_outputs=gout1[i].reshape(self.outshape),
-                                            retain_graph=True, create_graph=torch.is_grad_enabled())  # (*nin)
+            one_dfdy = _grad_or_zeros(yout, yparam, grad_outputs=gout1[i].reshape(self.outshape),
+                                      create_graph=torch.is_grad_enabled())  # (*nin)
             dfdy_list.append(one_dfdy.unsqueeze(0))
         dfdy = torch.cat(dfdy_list, dim=0)  # (nbatch, *nin)
 
@@ -206,6 +204,16 @@ class _Jac(LinearOperator):
 
     def __update_params(self):
         self.params = self.param_sep.reconstruct_params(self.params_tensor)
+
+def _grad_or_zeros(out, inp, grad_outputs=None, create_graph=False):
+    # d(out)/d(inp) contracted with grad_outputs, where an output that does not depend
+    # on the input has a (structurally) zero derivative instead of being an error,
+    # e.g. the jacobian w.r.t. a parameter the function does not use
+    if not out.requires_grad:
+        return torch.zeros_like(inp)
+    res, = torch.autograd.grad(out, (inp,), grad_outputs=grad_outputs, retain_graph=True,
+                               create_graph=create_graph, allow_unused=True)
+    return torch.zeros_like(inp) if res is None else res
 
 def connect_graph(out, params):
     # just to have a dummy graph, in case there is a parameter that
